@@ -500,6 +500,9 @@ class Target:
         self.params = [(p[0], parse_type(p[1])) for p in d.get("params", [])]
         self.ret = parse_type(d["ret"])
         self.absent = set(d.get("absent", []))
+        # parameters the caller passes as an explicit `None` (whatever their default is); like "absent" they select a
+        # specialisation, and `x is None` tests on them are decided statically
+        self.none_params = set(d.get("none", []))
         self.self_attrs = d.get("self_attrs", {})
         self.binds = d.get("binds", {})
         self.cls_as = d.get("cls_as")  # specialise cls/self to a subclass (name resolved from `file`)
@@ -510,6 +513,8 @@ class Target:
         self.loop_fuel = d.get("loop_fuel")  # fuel of the fuel-recursive functions that `while` loops become (required when there is one)
         # Lean parameters that stand for instance attributes of an erased self (see self_attrs "param:<name>")
         self.extra_params = [(p[0], parse_type(p[1])) for p in d.get("extra_params", [])]
+        # the function returns `lambda <these>: expr`; the generated definition is the uncurried f(args)(lambda args)
+        self.lambda_params = [(p[0], parse_type(p[1])) for p in d.get("lambda_params", [])]
         # filled by translation
         self.node: ast.FunctionDef | None = None
         self.kind = None  # 'method' | 'class' | 'static' | 'property' | 'function'
@@ -523,7 +528,7 @@ class Target:
         return (self.cls, self.function)
 
     def lean_params(self):
-        return [(n, t) for n, t in self.params if t != "Str"]
+        return [(n, t) for n, t in self.params if t != "Str"] + list(self.lambda_params)
 
 
 class Gen:
@@ -547,6 +552,8 @@ class Gen:
             return "(" + " × ".join(self.lean_type(x) for x in t) + ")"
         if t in ("Int", "Bool", "Unit"):
             return t
+        if isinstance(t, str) and t.startswith("?"):  # `T | None` as a RESULT type
+            return f"(Option {self.lean_type(t[1:])})"
         if t in self.types:
             return self.types[t]["lean"]
         raise KeyError(f"unknown type {t}")
@@ -774,6 +781,8 @@ class FnTranslator:
                 ctx.vars[p] = declared[p]
             elif p == self.receiver:
                 ctx.vars[p] = "Erased"
+            elif p in t.none_params:
+                ctx.vars[p] = "None"
             elif p in t.absent:
                 if p not in defaults or not (isinstance(defaults[p], ast.Constant) and defaults[p].value is None):
                     self.bad(node, f"absent parameter {p} has no None default")
@@ -848,6 +857,41 @@ class FnTranslator:
                         return ast.copy_location(ast.AnnAssign(target=st.target, annotation=st.annotation, value=v, simple=st.simple), st)
                     return ast.copy_location(ast.Assign(targets=st.targets, value=v), st)
                 stmts = [ast.copy_location(ast.If(test=ie.test, body=[clone(ie.body)], orelse=[clone(ie.orelse)]), st)] + rest
+                i = 0
+                continue
+            if isinstance(st, (ast.Return, ast.Assign, ast.AnnAssign)) and isinstance(st.value, (ast.BoolOp, ast.Compare)) \
+                    and self.needs_statement_form(st.value, ctx):
+                # a raising call under `and` / `or` / the later links of a chained comparison:
+                #   `return A and B`   ==  `if A: return B` / `else: return False`      (A is a bool: tests of other types are refused)
+                #   `return A or B`    ==  `if A: return True` / `else: return B`
+                #   `a < b <= c`       ==  `a < b and b <= c` when b is a name / attribute chain / literal (evaluated twice
+                #                          without effect)
+                v = st.value
+
+                def clone2(val, st=st):
+                    if isinstance(st, ast.Return):
+                        return ast.copy_location(ast.Return(value=val), st)
+                    if isinstance(st, ast.AnnAssign):
+                        return ast.copy_location(ast.AnnAssign(target=st.target, annotation=st.annotation, value=val, simple=st.simple), st)
+                    return ast.copy_location(ast.Assign(targets=st.targets, value=val), st)
+                if isinstance(v, ast.Compare):
+                    operands = [v.left] + list(v.comparators)
+                    for mid in operands[1:-1]:
+                        if not self.is_pure_simple(mid):
+                            self.bad(v, "chained comparison with a raising call whose middle operand is not a simple name/attribute")
+                    links = [ast.copy_location(ast.Compare(left=operands[i], ops=[v.ops[i]], comparators=[operands[i + 1]]), v) for i in range(len(v.ops))]
+                    v = ast.copy_location(ast.BoolOp(op=ast.And(), values=links), v)
+                    stmts = [clone2(v)] + rest
+                    i = 0
+                    continue
+                first, others = v.values[0], v.values[1:]
+                tail = others[0] if len(others) == 1 else ast.copy_location(ast.BoolOp(op=v.op, values=others), v)
+                const = lambda b: ast.copy_location(ast.Constant(value=b), v)  # noqa: E731
+                if isinstance(v.op, ast.And):
+                    new = ast.If(test=first, body=[clone2(tail)], orelse=[clone2(const(False))])
+                else:
+                    new = ast.If(test=first, body=[clone2(const(True))], orelse=[clone2(tail)])
+                stmts = [ast.copy_location(new, st)] + rest
                 i = 0
                 continue
             if isinstance(st, ast.Return):
@@ -1008,10 +1052,19 @@ class FnTranslator:
                         + [lname(v) for v, _ in lp["free"]] + ["fuel'"] + [lname(v) for v, _ in lp["carried"]])
         return [("tail", call, lp["type"])]
 
-    def needs_statement_form(self, ie: ast.IfExp, ctx: Ctx) -> bool:
-        """Does a branch of this conditional expression contain something that must be hoisted (a raising call,
-        a table lookup)?  Decided by a trial translation on a copy of the state."""
-        if self.static(ie.test, ctx) is not None:
+    def is_pure_simple(self, e) -> bool:
+        """a name, literal or attribute chain on a name: evaluating it twice is evaluating it once"""
+        while isinstance(e, ast.Attribute):
+            e = e.value
+        return isinstance(e, (ast.Name, ast.Constant))
+
+    def needs_statement_form(self, ie, ctx: Ctx) -> bool:
+        """Does a branch of this conditional expression (or a later operand of this and/or/chained comparison) contain
+        something that must be hoisted (a raising call, a table lookup)?  Decided by a trial translation on a copy of
+        the state."""
+        if isinstance(ie, ast.IfExp) and self.static(ie.test, ctx) is not None:
+            return False
+        if not isinstance(ie, ast.IfExp) and self.static(ie, ctx) is not None:
             return False
         saved = self.tmp
         try:
@@ -1042,10 +1095,36 @@ class FnTranslator:
                 return self.do_return(ast.copy_location(ast.Return(value=ast.Name(id=self.init_object, ctx=ast.Load())), st), ctx)
             if t.ret == "Unit":
                 return [("ret", "()", "Unit")]
+            if isinstance(t.ret, str) and t.ret.startswith("?"):
+                return [("ret", "none", t.ret)]
             self.bad(st, "return None")
         v = st.value
         if isinstance(v, ast.Name) and v.id == "NotImplemented":
             self.bad(st, "reachable `return NotImplemented`")
+        if isinstance(v, ast.Lambda) and t.lambda_params and not getattr(self, "in_lambda", False):
+            # `return lambda p: e` of a target that declares lambda_params: the generated definition is the uncurried
+            # function, f(args)(p) = f' args p.  Everything before this statement runs when the factory is called,
+            # e when the lambda is called; both are pure up to exceptions, and an exception of the factory part
+            # precedes any of the lambda part in both readings.
+            la = v.args
+            if la.vararg or la.kwarg or la.kwonlyargs or la.defaults or la.kw_defaults or la.posonlyargs:
+                self.bad(st, "lambda with defaults / *args / keyword-only parameters")
+            names = [a.arg for a in la.args]
+            if names != [n for n, _ in t.lambda_params]:
+                self.bad(st, f"lambda parameters {names} differ from the declared lambda_params {[n for n, _ in t.lambda_params]}")
+            for n in names:
+                if n in self.local_names or n in ctx.constructing:
+                    self.bad(st, f"lambda parameter {n} shadows a local name of the enclosing function")
+            if getattr(self, "in_loop", False):
+                self.bad(st, "lambda inside a loop")
+            c2 = ctx.copy()
+            for n, ty in t.lambda_params:
+                c2.vars[n] = ty
+            self.in_lambda = True
+            try:
+                return self.block([ast.copy_location(ast.Return(value=v.body), st)], c2)
+            finally:
+                self.in_lambda = False
         # object under construction
         if isinstance(v, ast.Name) and v.id in ctx.constructing:
             ty = ctx.constructing[v.id]
@@ -1057,22 +1136,28 @@ class FnTranslator:
             return [("ret", "⟨" + ", ".join(self.field_var(v.id, f) for f in fields) + "⟩", ty)]
         pre = []
         # tail call of a raising function
+        opt = isinstance(t.ret, str) and t.ret.startswith("?")
         if isinstance(v, ast.Call):
             call = self.call(v, ctx, pre, want_raw=True)
             if call[0] == "raising":
                 _, txt, ty = call
+                if opt and ty == t.ret[1:]:
+                    tv = self.fresh("r")
+                    return pre + [("bind", tv, txt, ty), ("ret", f"some {tv}", t.ret)]
                 self.check_ret(st, ty)
                 return pre + [("tail", txt, ty)]
             _, txt, ty = call
         else:
             txt, ty = self.expr(v, ctx, pre)
-            if pre and pre[-1][0] == "bind" and pre[-1][1] == txt:
+            if pre and pre[-1][0] == "bind" and pre[-1][1] == txt and not (opt and pre[-1][3] == t.ret[1:]):
                 # the value is exactly the result of the last raising call: return the call itself
                 _, _, calltxt, cty = pre.pop()
                 self.check_ret(st, cty)
                 return pre + [("tail", calltxt, cty)]
         if t.ret == "Bool" and ty == "Prop":
             txt, ty = f"decide ({strip_parens(txt)})", "Bool"
+        if opt and ty == t.ret[1:]:
+            return pre + [("ret", f"some {self.paren(txt)}", t.ret)]
         self.check_ret(st, ty)
         return pre + [("ret", txt, ty)]
 
@@ -1090,6 +1175,10 @@ class FnTranslator:
         pre = []
         kind, txt, ty = self.call(v, ctx, pre, want_raw=True)
         if kind != "raising":
+            if id(v) in getattr(self, "pure_translated_calls", ()):
+                # a translated function has no side effects; one that cannot raise either has no effect as a statement
+                # (e.g. `_Preconditions._check_not_null(x, "x")` with x of a declared, non-None type)
+                return pre
             self.bad(st, "call statement of a function that cannot raise (no effect)")
         if ty != "Unit":
             self.bad(st, f"discarded result of type {ty}")
@@ -1556,7 +1645,8 @@ class FnTranslator:
         a, ta = self.expr(e.left, ctx, pre, cond)
         if ta in self.g.types:
             b, tb = self.expr(e.right, ctx, pre, cond)
-            meth = {ast.Add: "__add__", ast.Sub: "__sub__", ast.Mult: "__mul__", ast.Div: "__truediv__", ast.FloorDiv: "__floordiv__"}.get(type(op))
+            meth = {ast.Add: "__add__", ast.Sub: "__sub__", ast.Mult: "__mul__", ast.Div: "__truediv__", ast.FloorDiv: "__floordiv__",
+                    ast.BitAnd: "__and__", ast.BitOr: "__or__"}.get(type(op))
             if meth is None:
                 self.bad(e, f"operator {type(op).__name__} on {ta}")
             return self.operator_call(e, ta, meth, [(a, ta), (b, tb)], ctx, pre, cond)
@@ -1629,6 +1719,26 @@ class FnTranslator:
         parts = []
         for i, op in enumerate(e.ops):
             (a, ta), (b, tb) = vals[i], vals[i + 1]
+            if isinstance(op, (ast.In, ast.NotIn)):
+                # `a in b`  ==  `b.__contains__(a)` (bool result); both operands are already evaluated, left first
+                if tb not in self.g.types:
+                    self.bad(e, f"`in` on a value of type {tb}")
+                txt, ty = self.operator_call(e, tb, "__contains__", [(b, tb), (a, ta)], ctx, pre, cond or i >= 1)
+                if ty != "Bool":
+                    self.bad(e, "__contains__ does not return Bool")
+                if isinstance(op, ast.NotIn):
+                    txt = f"(!{txt})"
+                if len(e.ops) == 1:
+                    return txt, "Bool"
+                parts.append(f"{txt} = true")
+                continue
+            if ta in self.g.types and self.g.types[ta].get("eq_only"):
+                # an opaque scalar (e.g. the identity of a calendar): only == and != exist
+                sym = {ast.Eq: "=", ast.NotEq: "≠"}.get(type(op))
+                if sym is None or tb != ta:
+                    self.bad(e, f"comparison {type(op).__name__} on the opaque type {ta} / with {tb}")
+                parts.append(f"{a} {sym} {b}")
+                continue
             if ta in self.g.types:
                 meth = {ast.Eq: "__eq__", ast.NotEq: "__ne__", ast.Lt: "__lt__", ast.LtE: "__le__", ast.Gt: "__gt__", ast.GtE: "__ge__"}.get(type(op))
                 if meth is None:
@@ -1735,6 +1845,14 @@ class FnTranslator:
                 if ta != "Int":
                     self.bad(e, "abs on non-int")
                 return "pure", f"(if {a} < 0 then -{a} else {a})", "Int"
+            if f.id == "len" and len(e.args) == 1 and not e.keywords:
+                a, ta = self.expr(e.args[0], ctx, pre, cond)
+                if ta not in g.types:
+                    self.bad(e, f"len() of a value of type {ta}")
+                txt, ty = self.operator_call(e, ta, "__len__", [(a, ta)], ctx, pre, cond)
+                if ty != "Int":
+                    self.bad(e, "__len__ does not return Int")
+                return "pure", txt, "Int"
             if f.id == "int" and len(e.args) == 1 and not e.keywords:
                 a, ta = self.expr(e.args[0], ctx, pre, cond)
                 if ta != "Int":
@@ -1785,12 +1903,44 @@ class FnTranslator:
                     args = [(obj, oty)] + [self.arg_or_str(a, ctx, pre, cond) for a in e.args]
                     kw = {k.arg: self.arg_or_str(k.value, ctx, pre, cond) for k in e.keywords}
                     return self.helper_call(e, g.helpers[hk], args, kw, ctx, pre, cond, want_raw)
+                meth = g.types[oty].get("methods", {}).get(f.attr)
+                if meth is not None:
+                    return self.method_field_call(e, obj, oty, f.attr, meth, ctx, pre, cond, want_raw)
                 tg = self.find_targets(pyc, f.attr)
                 if not tg:
                     self.bad(e, f"call of {dotted}: {pyc}.{f.attr} is not in the target list")
                 return self.finish_call(e, tg, e.args, e.keywords, ctx, pre, cond, want_raw, receiver=(obj, oty))
             self.bad(e, f"method call on a value of type {oty}")
         self.bad(e, f"call of {dotted[:40]}")
+
+    def method_field_call(self, e, obj, oty, name, m: dict, ctx, pre, cond, want_raw):
+        """Virtual method of an object type = function-valued field of its structure (dynamic dispatch is the record
+        of closures): `obj.m(a, k=b)`  ->  `obj.field a b`.
+        m: {'field', 'py_params': [...], 'arg_types': [...], 'ret', 'raises'}; every parameter must be given."""
+        pyp, ats = list(m["py_params"]), [parse_type(x) for x in m["arg_types"]]
+        if len(pyp) != len(ats):
+            self.bad(e, f"methods entry {name}: py_params / arg_types length")
+        if len(e.args) > len(pyp):
+            self.bad(e, f"too many arguments for method {name}")
+        vals = {}
+        for pn, a in zip(pyp, e.args):
+            vals[pn] = self.expr(a, ctx, pre, cond)
+        for k in e.keywords:
+            if k.arg not in pyp or k.arg in vals:
+                self.bad(e, f"keyword {k.arg} of method {name}")
+            vals[k.arg] = self.expr(k.value, ctx, pre, cond)
+        parts = []
+        for pn, want in zip(pyp, ats):
+            if pn not in vals:
+                self.bad(e, f"argument {pn} of method {name} missing")
+            txt, ty = vals[pn]
+            if ty == "Prop" and want == "Bool":
+                txt, ty = f"decide ({strip_parens(txt)})", "Bool"
+            if ty != want:
+                self.bad(e, f"argument {pn} of method {name} has type {ty}, expected {want}")
+            parts.append(self.paren(txt))
+        txt = " ".join([f"{self.paren(obj)}.{m['field']}"] + parts)
+        return self.deliver(e, txt, parse_type(m["ret"]), bool(m.get("raises")), pre, cond, want_raw)
 
     def arg_or_str(self, a, ctx, pre, cond):
         if isinstance(a, ast.Constant) and isinstance(a.value, str):
@@ -1845,6 +1995,10 @@ class FnTranslator:
 
     def operator_call(self, e, sty, meth, args, ctx, pre, cond):
         pyc = self.g.types[sty].get("py_class", sty)
+        hk = f"{pyc}.{meth}"
+        if hk in self.g.helpers:  # an operator of a hand-mapped class
+            r = self.helper_call(e, self.g.helpers[hk], list(args), {}, ctx, pre, cond, False)
+            return r[1], r[2]
         tg = self.find_targets(pyc, meth)
         if not tg:
             self.bad(e, f"operator {meth} of {pyc} is not in the target list")
@@ -1879,7 +2033,7 @@ class FnTranslator:
                 continue
             bound |= set(provided_kw)
             declared = dict(c.params)
-            if any(p in c.absent or (p not in declared) for p in bound):
+            if any(p in c.absent or p in c.none_params or (p not in declared) for p in bound):
                 why.append(f"{c.lean_name}: passes a parameter this specialisation treats as absent/defaulted")
                 continue
             need = {n for n, _ in c.params if n != c.pyparams[0] or c.kind in ("static", "function")}
@@ -1904,6 +2058,8 @@ class FnTranslator:
         if len(fits) > 1:
             self.bad(e, "ambiguous call: several translated specialisations accept it: " + ", ".join(c.lean_name for c in fits))
         c = fits[0]
+        if c.lambda_params:
+            self.bad(e, f"call of {c.lean_name}, which returns a lambda (only the uncurried definition exists)")
         if c not in self.t.calls:
             self.t.calls.append(c)
         pyp = list(c.pyparams)
@@ -1971,6 +2127,10 @@ class FnTranslator:
                 self.bad(e, f"{c.lean_name} needs the instance attribute parameter {n}, which {self.t.lean_name} does not have")
             fargs.append(lname(n))
         txt = " ".join([self.ref(c.lean_name)] + fargs + [self.paren(x) for x in out])
+        if not c.raises:
+            if not hasattr(self, "pure_translated_calls"):
+                self.pure_translated_calls = set()
+            self.pure_translated_calls.add(id(e))
         r = self.deliver(e, txt, c.ret, c.raises, pre, cond, want_raw)
         return r
 
@@ -1989,6 +2149,8 @@ class Emitter:
         spec = []
         if t.absent:
             spec.append("absent: " + ", ".join(sorted(t.absent)))
+        if t.none_params:
+            spec.append("passed as None: " + ", ".join(sorted(t.none_params)))
         if t.cls_as:
             spec.append(f"cls = {t.cls_as}")
         if t.self_attrs:
